@@ -301,4 +301,3 @@ func firstRel(v *VM, typ string) string {
 	}
 	return rs[0]
 }
-
